@@ -1,8 +1,292 @@
-//! C09 — see /verif/DESIGN.md §3.
-use vf_core::{Args, Ctx};
+//! C09 — glyph outlines written to glyf/loca are the outlines read and drawn back.
+//! See /verif/DESIGN.md §3 "C09".
+mod draw;
+mod gen;
+mod model;
+mod oracle;
 
-pub const REPLAY: Option<fn(&mut Ctx, &Args, &serde_json::Value, Option<&[u8]>)> = None;
+use model::*;
+use oracle::{check_set, AddVia};
+use serde_json::{json, Value};
+use vf_core::{Args, Ctx, PanicPolicy, Rng};
+use write_fonts::tables::glyf as w;
+
+pub const REPLAY: Option<fn(&mut Ctx, &Args, &Value, Option<&[u8]>)> = None;
+
+const ALPHABET: [i16; 7] = [-32768, -255, -1, 0, 1, 256, 32767];
+
+fn representable(a: i16, b: i16) -> bool {
+    let d = b as i32 - a as i32;
+    (-32768..=32767).contains(&d)
+}
+
+/// All glyphs of 1..=3 points over ALPHABET² × {on, off}, every partition into
+/// contours, restricted to representable successive deltas.
+fn exhaustive_small(ctx: &mut Ctx, item: &mut usize) {
+    let pts: Vec<Pt> = ALPHABET
+        .iter()
+        .flat_map(|x| ALPHABET.iter().flat_map(move |y| [true, false].into_iter().map(move |on| Pt { x: *x, y: *y, on })))
+        .collect();
+    let np = pts.len(); // 98
+    let ok = |a: &Pt, b: &Pt| representable(a.x, b.x) && representable(a.y, b.y);
+    const BATCH: usize = 4096;
+    let mut batch: Vec<MGlyph> = Vec::with_capacity(BATCH);
+    let mut total = 0u64;
+    let mut skipped = 0u64;
+    let mut flush = |ctx: &mut Ctx, batch: &mut Vec<MGlyph>, item: &mut usize| {
+        if batch.is_empty() {
+            return;
+        }
+        *item += 1;
+        if ctx.mine(*item) {
+            ctx.count("cases:exhaustive-batches", 1);
+            let via = if *item % 2 == 0 { AddVia::Enum } else { AddVia::Direct };
+            check_set(ctx, "exhaustive", batch, via);
+        }
+        batch.clear();
+    };
+    let bbox = [-7, -8, 9, 10];
+    let mut push = |ctx: &mut Ctx, item: &mut usize, contours: Vec<Vec<Pt>>, batch: &mut Vec<MGlyph>| {
+        batch.push(MGlyph::Simple { bbox, contours, instr: vec![] });
+        if batch.len() == BATCH {
+            flush(ctx, batch, item);
+        }
+    };
+    for a in 0..np {
+        total += 1;
+        push(ctx, item, vec![vec![pts[a]]], &mut batch);
+        for b in 0..np {
+            if !ok(&pts[a], &pts[b]) {
+                skipped += 1;
+                continue;
+            }
+            total += 2;
+            push(ctx, item, vec![vec![pts[a], pts[b]]], &mut batch);
+            push(ctx, item, vec![vec![pts[a]], vec![pts[b]]], &mut batch);
+            for c in 0..np {
+                if !ok(&pts[b], &pts[c]) {
+                    skipped += 1;
+                    continue;
+                }
+                total += 4;
+                push(ctx, item, vec![vec![pts[a], pts[b], pts[c]]], &mut batch);
+                push(ctx, item, vec![vec![pts[a]], vec![pts[b], pts[c]]], &mut batch);
+                push(ctx, item, vec![vec![pts[a], pts[b]], vec![pts[c]]], &mut batch);
+                push(ctx, item, vec![vec![pts[a]], vec![pts[b]], vec![pts[c]]], &mut batch);
+            }
+        }
+    }
+    // remaining partial batch
+    if !batch.is_empty() {
+        *item += 1;
+        if ctx.mine(*item) {
+            ctx.count("cases:exhaustive-batches", 1);
+            check_set(ctx, "exhaustive", &batch, AddVia::Enum);
+        }
+    }
+    ctx.exhaustive = Some(true);
+    ctx.extra.insert(
+        "exhaustive_space".into(),
+        json!({"coordinate_alphabet": ALPHABET, "max_points": 3, "glyphs_total_all_shards": total,
+               "prefixes_skipped_unrepresentable_delta": skipped, "contour_partitions": "all"}),
+    );
+}
+
+/// `recompute_bounding_box` must give min/max over all points, off-curve included.
+fn check_recompute_bbox(ctx: &mut Ctx, g: &MGlyph) {
+    if let MGlyph::Simple { contours, instr, .. } = g {
+        if contours.is_empty() {
+            return;
+        }
+        let mut sg = to_simple([11, 22, 33, 44], contours, instr);
+        let r = vf_core::guard(|| {
+            sg.recompute_bounding_box();
+            sg.bbox
+        });
+        match r {
+            Ok(b) => {
+                let got = [b.x_min, b.y_min, b.x_max, b.y_max];
+                let want = gen::true_bbox(contours).unwrap_or([0; 4]);
+                ctx.count("recompute_bounding_box_checked", 1);
+                if got != want {
+                    ctx.violation(
+                        "recompute_bounding_box:not-min-max-of-all-points",
+                        json!({"got": got, "want": want, "glyph": oracle::glyph_json(g)}),
+                        None,
+                    );
+                }
+            }
+            Err(p) => {
+                if let Some(sig) = oracle::lib_sig(&p) {
+                    ctx.violation(&format!("recompute_bounding_box-{}", sig), json!({"glyph": oracle::glyph_json(g), "msg": p.msg}), None);
+                }
+            }
+        }
+    }
+}
+
+/// Glyph values at the edge of what `add_glyph` accepts (outside the main claim).
+fn probes(ctx: &mut Ctx) {
+    // empty contour after a non-empty one: representable (repeated end point)
+    let g = MGlyph::Simple {
+        bbox: [0, 0, 5, 5],
+        contours: vec![vec![Pt { x: 1, y: 1, on: true }], vec![], vec![Pt { x: 5, y: 5, on: true }]],
+        instr: vec![],
+    };
+    ctx.count("cases:probe-empty-inner-contour", 1);
+    check_set(ctx, "probe-empty-inner-contour", &[g], AddVia::Direct);
+    // empty FIRST contour: end point would be -1
+    let g = MGlyph::Simple { bbox: [0, 0, 5, 5], contours: vec![vec![], vec![Pt { x: 5, y: 5, on: true }]], instr: vec![] };
+    ctx.count("cases:probe-empty-first-contour", 1);
+    let sg = match oracle::to_owned_glyph(&g) {
+        Ok(w::Glyph::Simple(s)) => s,
+        _ => return,
+    };
+    let r = vf_core::guard(|| {
+        let mut b = w::GlyfLocaBuilder::new();
+        let ok = b.add_glyph(&sg).is_ok();
+        let (glyf, _, _) = b.build();
+        (ok, write_fonts::dump_table(&glyf).map(|b| b.len()).unwrap_or(0))
+    });
+    match r {
+        Err(p) => {
+            if let Some(sig) = oracle::lib_sig(&p) {
+                ctx.violation(
+                    &format!("probe-empty-first-contour:add_glyph-{}", sig),
+                    json!({"what": "SimpleGlyph whose first contour has no points passes validation, then write_into panics", "panic": p.msg, "glyph": oracle::glyph_json(&g)}),
+                    None,
+                );
+            }
+        }
+        Ok((accepted, len)) => {
+            ctx.label("probe_empty_first_contour", &format!("accepted={} glyf_len={}", accepted, len));
+        }
+    }
+}
 
 pub fn run(ctx: &mut Ctx, _args: &Args) {
-    ctx.rule = "stub".into();
+    ctx.policy = PanicPolicy::Any;
+    ctx.level = "exploration+exhaustive-small-space".into();
+    ctx.rule = "a glyph is counted when it is non-empty, was accepted by GlyfLocaBuilder::add_glyph, and its slot in the \
+        built glyf/loca was decoded by read-fonts (3 paths) and by the harness's independent spec decoder and compared with \
+        the input, and its length compared with the canonical shortest encoding (digest of the glyph value); a bezpath is \
+        counted when its unscaled skrifa drawing was compared with the source path (digest of the path)."
+        .into();
+    ctx.assumptions = vec![
+        "domain: successive point deltas representable in i16 (the first point relative to 0,0), every contour of a simple glyph has >= 1 point, <= 65535 points, composites have >= 1 component".into(),
+        "canonical length: 10-byte header + endPts + instructionLength + instructions + optimal run-length coding of the minimal per-point flags + minimal delta bytes (0/1/2), padded to 2 bytes as the builder does".into(),
+        "path equality: closed contours compared as cyclic sequences of line/quad segments with exact coordinates (integer inputs, half-integer implied midpoints), zero-length lines ignored".into(),
+        "composites with instructions are obtained through CompositeGlyph::read of bytes produced by the harness's own spec encoder (no public constructor sets instructions)".into(),
+    ];
+    let mut item = 0usize;
+
+    // ---- 1. exhaustive small space
+    exhaustive_small(ctx, &mut item);
+
+    // ---- 2. random glyph sets
+    let n_sets = ctx.tier.pick(4000usize, 120_000usize);
+    for i in 0..n_sets {
+        item += 1;
+        if !ctx.mine(item) {
+            continue;
+        }
+        let mut rng = Rng::derive(ctx.seed, "c09-sets", i as u64);
+        let n = match rng.below(4) {
+            0 => 1,
+            1 => rng.range(1, 6),
+            _ => rng.range(1, 40),
+        } as usize;
+        let set: Vec<MGlyph> = (0..n).map(|_| gen::gen_glyph(&mut rng)).collect();
+        let via = if rng.bool() { AddVia::Enum } else { AddVia::Direct };
+        ctx.count("cases:random-sets", 1);
+        for g in set.iter().take(3) {
+            check_recompute_bbox(ctx, g);
+        }
+        if let Some((_, st)) = check_set(ctx, "random-set", &set, via) {
+            if st.composite > 0 {
+                ctx.sample_by_kind("set-with-composite", json!({"glyphs": set.iter().take(4).map(oracle::glyph_json).collect::<Vec<_>>()}));
+            } else {
+                ctx.sample_by_kind("set-simple", json!({"glyphs": set.iter().take(3).map(oracle::glyph_json).collect::<Vec<_>>()}));
+            }
+        }
+    }
+
+    // ---- 3. composite matrix (every anchor width × transform class × user flag)
+    item += 1;
+    if ctx.mine(item) {
+        let m = gen::composite_matrix();
+        ctx.count("cases:composite-matrix-glyphs", m.len() as u64);
+        check_set(ctx, "composite-matrix", &m, AddVia::Enum);
+        check_set(ctx, "composite-matrix", &m, AddVia::Direct);
+    }
+
+    // ---- 4. flag-run lengths 1..=600, one glyph per length and flag kind
+    for l in 1..=600usize {
+        item += 1;
+        if !ctx.mine(item) {
+            continue;
+        }
+        let mut set = vec![];
+        for (dx, dy, on) in [(0i32, 0i32, true), (1, 0, true), (0, -1, false), (3, 4, true), (-300, 0, false), (0, 256, true)] {
+            // a leading point with a different flag, then l identical ones, then a different one
+            let mut pts = vec![Pt { x: -1000, y: 500, on: !on }];
+            let (mut x, mut y) = (-1000i32, 500i32);
+            for k in 0..l {
+                let sx = if (-32000..32000).contains(&(x + dx)) { dx } else { 0 };
+                // keep deltas identical: ranges chosen so that no reflection is needed for l <= 600 except dx=-300
+                let sx = if dx == -300 && k % 2 == 1 { sx } else { sx };
+                x += sx;
+                y += dy;
+                pts.push(Pt { x: x as i16, y: y as i16, on });
+            }
+            pts.push(Pt { x: 7, y: 7, on: !on });
+            set.push(MGlyph::Simple { bbox: [0; 4], contours: vec![pts], instr: vec![] });
+        }
+        ctx.count("cases:flag-run-sets", 1);
+        check_set(ctx, "flag-runs", &set, AddVia::Enum);
+    }
+
+    // ---- 5. glyf sizes around the short/long loca boundary
+    let targets: Vec<usize> = {
+        let mut t = vec![0x1FFF0, 0x1FFFC, 0x1FFFE, 0x20000, 0x20002, 0x20010, 0x10000, 0x30000];
+        let mut rng = Rng::derive(ctx.seed, "c09-size-targets", 0);
+        for _ in 0..ctx.tier.pick(8, 120) {
+            t.push((rng.range(0x1FF00, 0x20100) as usize) & !1);
+        }
+        t
+    };
+    for (i, t) in targets.iter().enumerate() {
+        item += 1;
+        if !ctx.mine(item) {
+            continue;
+        }
+        let mut rng = Rng::derive(ctx.seed, "c09-sized", i as u64);
+        let set = gen::sized_set(&mut rng, *t);
+        ctx.count("cases:sized-sets", 1);
+        if let Some((built, _)) = check_set(ctx, "sized-set", &set, if i % 2 == 0 { AddVia::Enum } else { AddVia::Direct }) {
+            if built.glyf.len() == *t {
+                ctx.count("sized_sets_hit_target_exactly", 1);
+            } else {
+                ctx.label("sized_sets_missed_target", &format!("{:#x}->{:#x}", t, built.glyf.len()));
+            }
+        }
+    }
+
+    // ---- 6. bezpath -> glyph -> unscaled draw
+    let n_draw = ctx.tier.pick(6000usize, 200_000usize);
+    for i in 0..n_draw {
+        item += 1;
+        if !ctx.mine(item) {
+            continue;
+        }
+        let mut rng = Rng::derive(ctx.seed, "c09-draw", i as u64);
+        ctx.count("cases:draw", 1);
+        draw::check_draw_case(ctx, &mut rng);
+    }
+
+    // ---- 7. probes at the domain edge
+    item += 1;
+    if ctx.mine(item) {
+        probes(ctx);
+    }
 }
